@@ -772,16 +772,18 @@ func fieldVerdict(o objT, e expStruct, s obsStruct) (string, string) {
 		if !tagsOK {
 			return "wrong_tag", ""
 		}
-		if verdict == "ok" {
-			verdict = "wrong_field_type"
-			for _, ef := range p {
-				for _, of := range f {
-					if of.Tag == ef.Tag && !typeOK(ef, of) && detail == "" {
-						for _, pr := range o.Props {
-							if pr.Name == ef.Tag {
-								detail = pr.Tid
-							}
-						}
+		verdict = "wrong_field_type"
+	}
+	if verdict == "wrong_field_type" {
+		// detail: the type ID of the first (document order) mistyped property
+		for _, pr := range o.Props {
+			for _, ef := range e.Fields {
+				if ef.Tag != pr.Name || detail != "" {
+					continue
+				}
+				for _, of := range s.Fields {
+					if of.Key == ef.Key && of.Tag == ef.Tag && !typeOK(ef, of) {
+						detail = pr.Tid
 					}
 				}
 			}
@@ -849,7 +851,24 @@ func structVerdict(doc []objT, args argsT, exp []expStruct, obs []obsStruct) (st
 				good = good || c == "ok"
 			}
 			if !good {
-				return fieldVerdict(o, e, O[e.Key][0])
+				// diagnosed against the struct that gets most of the properties right (the first of those)
+				best, bestScore := 0, -1
+				for j, s := range O[e.Key] {
+					score := 0
+					for _, ef := range e.Fields {
+						hit := false
+						for _, of := range s.Fields {
+							hit = hit || (of.Key == ef.Key && of.Tag == ef.Tag && typeOK(ef, of))
+						}
+						if hit {
+							score++
+						}
+					}
+					if score > bestScore {
+						best, bestScore = j, score
+					}
+				}
+				return fieldVerdict(o, e, O[e.Key][best])
 			}
 		}
 	}
